@@ -2,6 +2,7 @@ package mon
 
 import (
 	"math/rand"
+	"sync"
 
 	"github.com/herohde/morlock/pkg/board"
 
@@ -49,7 +50,9 @@ func smallMaterial(r *rand.Rand) ref.Pos {
 
 func gameStart(r *rand.Rand, kind int) (ref.Pos, gen.Bias, int) {
 	starts := gen.Starts()
-	switch kind % 9 {
+	switch kind % 10 {
+	case 9: // king beside an enemy home rook with the right still held; capture-happy play
+		return gen.TacticOK(r, 10), gen.Trader, 6 + r.Intn(40)
 	case 8: // castle, then shuffle: repetition whose first occurrence directly follows castling
 		return ref.MustFEN([]string{"r3k2r/8/8/8/8/8/8/R3K2R w KQkq - 0 1", "r3k2r/p6p/8/8/8/8/P6P/R3K2R w KQkq - 4 20", "r3k2r/pppq1ppp/2n2n2/8/8/2N2N2/PPPQ1PPP/R3K2R b KQkq - 6 12"}[r.Intn(3)]), gen.CastleShuffle, 30 + r.Intn(60)
 	case 0: // repetitions from the initial position (incl. of the start position itself)
@@ -127,6 +130,7 @@ func init() {
 		Cases: func(tier string, seed int64) []fw.Case {
 			l := mkCases(nil, "games", 48, seed, pick(tier, 160, 3000))
 			l = mkCases(l, "sensitivity", 16, seed, pick(tier, 1000, 30000))
+			l = mkCases(l, "newseeds", 8, seed, pick(tier, 60, 2000))
 			return l
 		},
 		Floors: func(string) map[string]int64 {
@@ -178,6 +182,43 @@ func init() {
 					h := randomHist(r, 60)
 					p := h.Final()
 					sensitivity(c, r, zt, p)
+				}
+			case "newseeds":
+				// several goroutines ask for the table of a never-used seed at the same moment (engines are
+				// created concurrently in one process): every board must still hash like a table made alone
+				for i := 0; i < cs.N; i++ {
+					zs := fw.Mix(cs.Seed, int64(i), 77)
+					p := randomHist(r, 30).Final()
+					const g = 6
+					hashes := make([]board.ZobristHash, g)
+					var wg sync.WaitGroup
+					start := make(chan struct{})
+					for k := 0; k < g; k++ {
+						wg.Add(1)
+						go func(k int) {
+							defer wg.Done()
+							<-start
+							z := board.NewZobristTable(zs)
+							if b, err := adapt.Board(z, p); err == nil {
+								hashes[k] = b.Hash()
+							}
+						}(k)
+					}
+					close(start)
+					wg.Wait()
+					pos, err := adapt.Position(p)
+					if err != nil {
+						continue
+					}
+					want := board.NewZobristTable(zs).Hash(pos, adapt.BColor(p.White))
+					c.Eval(1)
+					c.Count("concurrent_seed_checks", 1)
+					for k := range hashes {
+						if hashes[k] != want {
+							c.Violate("hash:table-construction", "board created while other goroutines construct the table of seed %d hashes %q to %016x, a table made alone gives %016x", zs, p.Key(), uint64(hashes[k]), uint64(want))
+							break
+						}
+					}
 				}
 			}
 		},
